@@ -93,5 +93,7 @@ C11Signature(p) == IF p.ow < 0 \/ p.ow > 1000 THEN "ordering-width-outside-0-1" 
 ThrowSignature(entry, what) == "detailed-throw"
 \* a hang is identified by where it hangs (class computed by the alarm handler of the harness from the innermost
 \* library frames)
-FateSignature(ev) == IF ev.e = "Timeout" THEN "timeout-" \o ev.hang ELSE "fate"
+FateSignature(ev, c) == IF ev.e = "Timeout" THEN "timeout-" \o ev.hang
+                       ELSE IF ev.e = "Sanitizer" /\ ev.san = "float-cast" /\ FloatingNetlist(c) THEN "nan-floating-netlist"
+                       ELSE "fate"
 =============================================================================
